@@ -7,3 +7,6 @@ mod groups;
 
 #[cfg(test)]
 mod test_allocator;
+
+#[cfg(feature = "verif")]
+pub mod verif_hooks;
